@@ -1143,3 +1143,18 @@ package keyvalue
 //@   ensures "mem-world" world() == old(world())
 //@   ensures "inv" fsMem(fs)
 //@   nopanic
+
+// Rename: only the name gate, the error shape of the gate and the file-system invariant are under contract (the
+// rename semantics proper - precedence of failure conditions, directory moves - are not decided here).
+//@ func (fs *FS) Rename(oldname string, newname string) (err error)
+//@   props C04 C05
+//@   requires fsMem(fs)
+//@   dispatch hackpadfs.FileInfo fileInfo
+//@   dispatch FileRecord *fileData mem.fileRecord
+//@   dispatch Transaction *mem.transaction
+//@   modifies world(), mapOf(ms(fs).records), held(ms(fs).mu)
+//@   loop 1 modifies mapOf(ms(fs).records), held(ms(fs).mu), world()
+//@   loop 1 invariant "inv" fsMem(fs) && VP(oldname) && VP(newname) && rangeindex >= -1 && rangeindex < max(len(files), 1) && (len(files) > 0 || rangeindex == -1)
+//@   ensures "gate" [C04 C05] implies(!VP(oldname) || !VP(newname), isLinkError(err) && errIs(err, hackpadfs.ErrInvalid) && oldOf(err) == oldname && newOf(err) == newname && memSame(fs) && world() == old(world()))
+//@   ensures "inv" fsMem(fs)
+//@   nopanic
